@@ -493,6 +493,22 @@ W_HavePtrNil == Settled /\ \E c \in Counters : HP(st[c]) = 1 /\ R(st[c]) = 0 /\ 
 W_InvalidateDuringHold == \E t \in Tasks : Active(t) /\ Top(t).pc = "IVa_cas" /\ R(st[Top(t).it]) > 0
 W_RefreshLocks == \E t \in Tasks : Active(t) /\ Top(t).pc = "IVr_cas"
 W_TwoGrowths == nmaps >= 3 /\ InitOpen
+(* branch windows: a task is about to take a particular branch of the protocol *)
+At(t, pc) == Active(t) /\ Top(t).pc = pc
+W_RefreshSeesReaders == \E t \in Tasks : At(t, "IVr_load") /\ LET w == st[Top(t).it] IN HP(w) = 0 /\ R(w) \in 1..(LOCKED - 1) /\ EX(w) > 0
+W_RefreshSeesLocked == \E t \in Tasks : At(t, "IVr_load") /\ LET w == st[Top(t).it] IN HP(w) = 0 /\ R(w) = LOCKED /\ EX(w) > 0
+W_AddSeesReadersNoPtr == \E t \in Tasks : At(t, "A_load") /\ LET w == st[Top(t).c] IN HP(w) = 0 /\ R(w) \in 1..(LOCKED - 1)
+W_LastReaderUpgrade == \E t \in Tasks : At(t, "RR_up") /\ st[Top(t).c] = Top(t).s
+W_UnlockRaced == \E t \in Tasks : At(t, "RL_unlock") /\ st[Top(t).c] # Top(t).s
+W_ClearExtraRaced == \E t \in Tasks : At(t, "RL_clrEx") /\ st[Top(t).c] # Top(t).s
+W_SetHPNoExtra == \E t \in Tasks : At(t, "RL_setHP") /\ EX(Top(t).s) = 0 /\ st[Top(t).c] = Top(t).s
+W_StoreDuringRead == \E t, u \in Tasks : t # u /\ At(t, "NC_store") /\ (At(u, "D_load") \/ At(u, "D_cas") \/ At(u, "A_cas1"))
+W_RotStoreDuringRead == \E t, u \in Tasks : t # u /\ At(t, "RO_store") /\ (At(u, "D_load") \/ At(u, "D_cas") \/ At(u, "A_cas1"))
+W_HeadCasRaced == \E t \in Tasks : At(t, "RG_hcas") /\ head # Top(t).h
+W_NilReader == \E t \in Tasks : At(t, "A_nilx")
+W_InvalidateCasRaced == \E t \in Tasks : At(t, "IVa_cas") /\ st[Top(t).it] # Top(t).s
+W_LookupBeforeOpen == \E t \in Tasks : At(t, "LK_cur") /\ cur = 0
+W_CloseWhileLocked == \E t \in Tasks : At(t, "IV_next2") /\ \E c \in Counters : Locked(st[c])
 NotW1 == ~W_HolderOnClosedMapping
 NotW2 == ~W_HalfRegistered
 NotW3 == ~W_LockWithReaders
@@ -500,6 +516,20 @@ NotW4 == ~W_HavePtrNil
 NotW5 == ~W_InvalidateDuringHold
 NotW6 == ~W_RefreshLocks
 NotW7 == ~W_TwoGrowths
+NotW8 == ~W_RefreshSeesReaders
+NotW9 == ~W_RefreshSeesLocked
+NotW10 == ~W_AddSeesReadersNoPtr
+NotW11 == ~W_LastReaderUpgrade
+NotW12 == ~W_UnlockRaced
+NotW13 == ~W_ClearExtraRaced
+NotW14 == ~W_SetHPNoExtra
+NotW15 == ~W_StoreDuringRead
+NotW16 == ~W_RotStoreDuringRead
+NotW17 == ~W_HeadCasRaced
+NotW18 == ~W_NilReader
+NotW19 == ~W_InvalidateCasRaced
+NotW20 == ~W_LookupBeforeOpen
+NotW21 == ~W_CloseWhileLocked
 
 View == <<shared, stk, rv, begun, faults>>
 =============================================================================
